@@ -104,6 +104,9 @@ Proof.
   - rewrite upd_val_notin; [|rewrite Hk; exact n]. apply upd_val_notin. exact n.
 Qed.
 
+Lemma set_one_back : forall c k v, NoDup (keys c) -> set_one k (getv k c) (set_one k v c) = c.
+Proof. intros c k v H. exact (set_all_saved c [(k, v)] H). Qed.
+
 Lemma zipset_same_length : forall l l', length l = length l' -> zipset l l' = l.
 Proof.
   induction l; destruct l'; cbn; intros; try discriminate; auto. f_equal. auto.
@@ -282,4 +285,192 @@ Section RunFacts.
     intros _. destruct m; [discriminate|reflexivity].
   Qed.
 
+
+  Lemma blk_enter_inv : forall b s s1 sv, blk_enter e b s = Some (s1, sv) -> good s ->
+    good s1 /\ (mask_clear s -> m_after false b = false -> mask_clear s1).
+  Proof.
+    intros b s s1 sv E [G1 G2]. unfold good, mask_clear.
+    destruct b; cbn [blk_enter] in E.
+    - inversion E; subst; cbn. rewrite keys_set_all. tauto.
+    - destruct (forallb _ _); [|discriminate]. inversion E; subst; cbn. rewrite keys_set_all. tauto.
+    - inversion E; subst; cbn. split; [tauto|]. intros _ D. discriminate.
+    - inversion E; subst; cbn. tauto.
+    - inversion E; subst; cbn. tauto.
+    - destruct (has_key _ _); [|discriminate]. inversion E; subst; cbn.
+      change (set_one name v (conf s)) with (set_all [(name, v)] (conf s)). rewrite keys_set_all. tauto.
+  Qed.
+
+  (* exit of a manager after a body that gave the state back as it was at entry *)
+  Lemma blk_exit_restores : forall b s s1 sv s2,
+    blk_enter e b s = Some (s1, sv) -> good s -> (is_temp_params b = true -> mask_clear s) ->
+    restored e s1 s2 -> restored e s (blk_exit e b sv s2).
+  Proof.
+    intros b s s1 sv s2 E [G1 G2] C [[A1 [A2 [A3 [A4 A5]]]] N].
+    destruct b; cbn [blk_enter] in E.
+    - (* AbsPDF.temp_params *)
+      inversion E; subst; clear E. cbn in *. unfold restored, eqm. cbn.
+      rewrite (get_all_dic_clear s (C eq_refl)).
+      rewrite set_all_self; [|exact G1|rewrite A1; apply keys_set_all].
+      repeat split; auto.
+    - (* VarsManager.temp_params *)
+      destruct (forallb _ _); [|discriminate]. inversion E; subst; clear E. cbn in *.
+      unfold restored, eqm. cbn. rewrite A1. rewrite set_all_saved; [|exact G1]. repeat split; auto.
+    - (* mask_params *)
+      inversion E; subst; clear E. cbn in *. unfold restored, eqm. cbn. repeat split; auto.
+    - (* temp_used_res *)
+      inversion E; subst; clear E. cbn in *. unfold restored, eqm. cbn. repeat split; auto.
+    - (* temp_total_gls_one *)
+      inversion E; subst; clear E. cbn in *. unfold restored, eqm. cbn. rewrite A4.
+      rewrite zipset_same_length; [|rewrite map_length; reflexivity]. repeat split; auto.
+    - (* temp_config *)
+      destruct (has_key _ _); [|discriminate]. inversion E; subst; clear E. cbn in *.
+      unfold restored, eqm. cbn. rewrite A5.
+      rewrite set_one_back; [|exact G2]. repeat split; auto.
+  Qed.
+
+  (* ---- arbitrary nesting, an exception at any evaluation point ---- *)
+  Theorem run_restores : forall p m w s,
+    safe m p = true -> good s -> (m = false -> mask_clear s) ->
+    restored e s (st_of (snd (run e ev p w s))).
+  Proof.
+    induction p as [|a IHa b IHb|b body IH|h|body IH]; intros m w s Hs G C.
+    - cbn [run]. rewrite tick_st. apply restored_refl.
+    - cbn [run]. cbn [safe] in Hs. apply andb_true_iff in Hs. destruct Hs as [Sa Sb].
+      pose proof (IHa m w s Sa G C) as Ra.
+      destruct (run e ev a w s) as [w' [s'|s']]; cbn [snd st_of] in Ra |- *; [|exact Ra].
+      eapply restored_trans; [exact Ra|]. apply (IHb m); auto.
+      + eapply good_eqm; [apply Ra|exact G].
+      + intros Hm. eapply clear_eqm; [apply Ra|auto].
+    - cbn [run]. rewrite with_block_st. apply safe_with in Hs. destruct Hs as [Sb Ht].
+      destruct (blk_enter e b s) as [[s1 sv]|] eqn:E; [|apply restored_refl].
+      destruct (blk_enter_inv b s s1 sv E G) as [G1 C1].
+      apply (blk_exit_restores b s s1 sv _ E G).
+      + intros T. apply C. apply Ht. exact T.
+      + apply (IH (m_after m b)); auto.
+        intros Hm. destruct b; cbn in Hm; try discriminate; subst m; apply C1; auto.
+    - cbn [run]. apply run_helper_restores.
+    - cbn [run]. cbn [safe] in Hs. rewrite try_finally_st. apply chains_back.
+      assert (Hinv : (fun x => sbc x s /\ good x) (st_of (snd
+                (foreach (cidx s) (fun i w1 s1 =>
+                   foreach (fnames_of e i)
+                     (fun j => with_block (blk_enter e (BMaskParams j)) (blk_exit e (BMaskParams j)) (run e ev body))
+                     w1 (set_used_chains e [i] s1)) w s)))).
+      { apply foreach_inv.
+        - intros i w1 s1 _ [Hx Gx].
+          apply (foreach_inv _ (fun x => sbc x s /\ good x)).
+          + intros j w2 s2 _ [Hy Gy]. rewrite with_block_st. cbn [blk_enter blk_exit].
+            assert (Gm : good (upd_mask j s2)) by exact Gy.
+            pose proof (IH true w2 (upd_mask j s2) Hs Gm (fun D => False_ind _ (diff_true_false D))) as R.
+            destruct R as [[A1 [A2 [A3 [A4 A5]]]] _]. cbn in A1, A2, A3, A4, A5.
+            destruct Hy as [B1 [B2 [B3 B4]]]. unfold sbc, good. cbn.
+            rewrite A1, A4, A5. destruct Gy as [Gy1 Gy2]. repeat split; auto.
+          + split; [|exact Gx]. eapply sbc_trans; [apply set_used_chains_ok|exact Hx].
+        - split; [unfold sbc; tauto|exact G]. }
+      apply Hinv.
+  Qed.
+
+  Corollary run_restores_exact : forall p w s,
+    safe false p = true -> good s -> mask_clear s -> nf_consistent e s ->
+    st_of (snd (run e ev p w s)) = s.
+  Proof.
+    intros. apply (restored_full e); auto. apply (run_restores p false); auto.
+  Qed.
+
+  (* ---- per-manager component theorems: ANY body (it may assign parameters, select chains ...) ---- *)
+  Lemma temp_params_any_body : forall pdict (body : comp) w s,
+    NoDup (keys (vars s)) -> mask_clear s ->
+    (forall w' x, keys (vars (st_of (snd (body w' x)))) = keys (vars x)) ->
+    vars (st_of (snd (with_block (blk_enter e (BTempParams pdict)) (blk_exit e (BTempParams pdict)) body w s))) = vars s.
+  Proof.
+    intros pdict body w s Hnd C Hk. rewrite with_block_st. cbn [blk_enter blk_exit]. cbn.
+    rewrite (get_all_dic_clear s C). apply set_all_self; auto.
+    rewrite Hk. cbn. apply keys_set_all.
+  Qed.
+
+  Lemma temp_used_res_any_body : forall res ints (body : comp) w s,
+    let r := st_of (snd (with_block (blk_enter e (BTempUsedRes res ints)) (blk_exit e (BTempUsedRes res ints)) body w s)) in
+    cidx r = cidx s /\ nf_consistent e r.
+  Proof.
+    intros. subst r. rewrite with_block_st. cbn [blk_enter blk_exit]. unfold nf_consistent. cbn. auto.
+  Qed.
+
+  Lemma mask_params_any_body : forall pdict (body : comp) w s,
+    maskv (st_of (snd (with_block (blk_enter e (BMaskParams pdict)) (blk_exit e (BMaskParams pdict)) body w s))) = maskv s.
+  Proof. intros. rewrite with_block_st. cbn [blk_enter blk_exit]. reflexivity. Qed.
+
+  Lemma helper_any_state : forall h w s,
+    let r := st_of (snd (run_helper e ev h w s)) in cidx r = cidx s /\ vars r = vars s /\ maskv r = maskv s.
+  Proof.
+    intros. subst r. destruct (run_helper_restores h w s) as [[A1 [A2 [A3 _]]] _]. auto.
+  Qed.
 End RunFacts.
+
+(* ------------------------------------------------------------------ the current code does leak in one nesting (F11) *)
+Definition ex_env : env := mkEnv 3 [(0, [0]); (1, [1]); (2, [2])] [(0, [[]]); (1, [[(3, (0, 1))]]); (2, [[]])].
+Definition ex_state : state :=
+  mkState [(0, (1, 2)); (1, (3, 5)); (3, (1, 1))] [] [0; 1; 2] false [false; false] [(0, (0, 1))].
+Definition never (n : nat) (s : state) := false.
+
+Lemma temp_params_under_mask_leaks :
+  vars (st_of (snd (run ex_env never
+        (PWith (BMaskParams [(0, (3, 4))]) (PWith (BTempParams [(1, (5, 8))]) PEval)) (O, []) ex_state)))
+  = [(0, (3, 4)); (1, (3, 5)); (3, (1, 1))].
+Proof. vm_compute. reflexivity. Qed.
+
+Lemma temp_params_in_factor_iteration_leaks :
+  vars (st_of (snd (run ex_env never (PFactorIter (PWith (BTempParams [(1, (5, 8))]) PEval)) (O, []) ex_state)))
+  = [(0, (1, 2)); (1, (3, 5)); (3, (0, 1))].
+Proof. vm_compute. reflexivity. Qed.
+
+(* ------------------------------------------------------------------ pre-fix control flow *)
+Definition raise_now : comp := fun w s => (w, Exn s).
+Definition return_now : comp := fun w s => (w, Ok s).
+
+(* F3: restore-after-yield without finally leaks whenever the manager changed anything and the body raises *)
+Lemma old_block_leaks : forall e b s s1 sv,
+  blk_enter e b s = Some (s1, sv) -> s1 <> s ->
+  st_of (snd (old_block e b raise_now (O, []) s)) <> s.
+Proof.
+  intros e b s s1 sv E D. unfold old_block, with_block_old. rewrite E. cbn. exact D.
+Qed.
+
+(* F3b: a bounded parameter came back as its fit-space value even on normal exit *)
+Lemma old_vm_temp_params_corrupts : forall (y2x : val -> val) v, y2x v <> v ->
+  exists s pdict, vars (st_of (snd (old_vm_temp_params y2x pdict return_now (O, []) s))) <> vars s.
+Proof.
+  intros y2x v D. exists (mkState [(0, v)] [] [] false [] []), [(0, v)].
+  cbn. intro H. inversion H. auto.
+Qed.
+
+(* F4: the fit-fraction helpers ended on "all resonances", not on the previous selection *)
+Lemma old_fitfractions_widens :
+  cidx (st_of (snd (old_fitfractions ex_env never [0; 1; 2] [0; 1] 1
+                      (O, []) (set_used_chains ex_env [0; 1] ex_state)))) = [0; 1; 2].
+Proof. vm_compute. reflexivity. Qed.
+(* ... and not at all when the integration raised *)
+Lemma old_fitfractions_exn_leaks :
+  cidx (st_of (snd (old_fitfractions ex_env (fun n _ => Nat.eqb n 1) [0; 1; 2] [0; 1] 1
+                      (O, []) ex_state))) = [0].
+Proof. vm_compute. reflexivity. Qed.
+
+(* ------------------------------------------------------------------ packaged forms *)
+Lemma run_density_unchanged : forall (A : Type) (density : state -> A) e ev p w s,
+  (forall a b, eqm a b -> density a = density b) ->
+  safe false p = true -> good s -> mask_clear s ->
+  density (st_of (snd (run e ev p w s))) = density s.
+Proof.
+  intros A density e ev p w s Hd Hs G C. apply Hd.
+  apply (run_restores e ev p false w s Hs G (fun _ => C)).
+Qed.
+
+Lemma temp_params_under_mask_refuted :
+  exists e ev p s, good s /\ mask_clear s /\ nf_consistent e s /\
+    vars (st_of (snd (run e ev p (O, []) s))) <> vars s.
+Proof.
+  exists ex_env, never, (PWith (BMaskParams [(0, (3, 4))]) (PWith (BTempParams [(1, (5, 8))]) PEval)), ex_state.
+  split; [|split; [|split]].
+  - unfold good. cbn. split; repeat constructor; cbn; intuition discriminate.
+  - intros k _. reflexivity.
+  - reflexivity.
+  - rewrite temp_params_under_mask_leaks. cbn. intro H. discriminate H.
+Qed.
